@@ -97,6 +97,11 @@ pub trait VerifierChannel<E: FieldElement> {
             .map(|seg| <Self::Hasher as ElementHasher>::hash_elements(seg))
             .collect();
 
+        #[cfg(winterfell_verif)]
+        if utils::verif::skip(utils::verif::SKIP_FRI_LAYER_CHECK) {
+            return Ok(leaf_values.to_vec());
+        }
+
         <<Self as VerifierChannel<E>>::VectorCommitment as VectorCommitment<Self::Hasher>>::verify_many(
             *commitment,
             positions,
